@@ -16,6 +16,7 @@ EXPLANATION = ("The pinned release as a separate binary cannot be consulted stat
                "(watto/leb128 versions in Cargo.lock), writer sort keys and reader comparators, and the reader-side interpretation "
                "(references of C01/C03/C04 cache variants). If the version constant differs, the table is skipped and instead the version "
                "check must gate parse (rejection rather than misreading). Hence silent format drift needs a failing rule.")
+EXPLANATION = EXPLANATION + ' Also decided for the reader: the equal-range search, the outer-simple-name rule for synthetic classes, and the signature renderers (`deobfuscate_signature` looks class names up in the parsed file).'
 RULE_TEXT = "one instance per frozen fact; distinct = distinct facts"
 TRUSTED = ["the v1 table was read off the pinned 5.5.0 tree and reviewed against src/cache/mod.rs:1-34", "Cargo.lock pins watto 0.1.0 / leb128 0.2.5"]
 
